@@ -44,7 +44,7 @@ class SpecRT:
                      'mem', 'length', 'msg_names', 'exact_arith', 'instance_is', 'V_of_int', 'field_updated', 'field_unchanged',
                      'dhas', 'dval', 'distinct_refs', 'is_digit_string', 'int_accepts', 'norm_any', 'dict_is',
                      'old_dict', 'dict_same', 'any_mem', 'any_of', 'any_is_int', 'any_int_value', 'str_is_int_of',
-                     'any_is_none', 'any_eq', 'any_same', 'returned_class', 'is_the_election'}
+                     'any_is_none', 'any_eq', 'any_same', 'returned_class', 'is_the_election', 'dict_int_values_between', 'int_value_of'}
 
     def init(self):
         self.ctx = None
